@@ -296,41 +296,6 @@ def aux_cases(rng, tier):
 
 def cases(rng, tier):
     if tier != "search":
-        fo = form_ops()
-        for lines in seeds():
-            for op in fo:
-                yield E.mk_case("ios", False, True, lines, [op], "forms")
-            for op in fo[::3]:
-                yield E.mk_case("ios", True, True, lines, [op], "forms-ign")
-            for op in fo[1::4]:
-                yield E.mk_case("nxos", False, False, lines, [op], "forms-nxos")
-        for lines in banner_seeds():
-            for op in fo[::2]:
-                if op[0] in ("atfl", "rem", "del2"):
-                    continue
-                yield E.mk_case("ios", False, True, lines, [op], "forms-banner")
-    nf = {"quick": 700, "thorough": 30000, "search": 1200}[tier]
-    for j in range(nf):
-        syntax = rng.choice(["ios", "ios", "nxos", "asa", "iosxr"])
-        auto = rng.random() < 0.7
-        ign = rng.random() < 0.3
-        r = rng.random()
-        if r < 0.35:
-            lines = rng.choice(seeds())
-        elif r < 0.65:
-            lines = dup_config(rng)
-        else:
-            lines = plain_config(rng, ign and rng.random() < 0.5)
-        # every third history runs with factory=True (the lines are then built by config_line_factory)
-        ops = rand_form_ops(rng, rng.choice([1, 2, 3, 4]), auto)
-        factory = j % 3 == 0 and not ign      # (CiscoConfParse refuses factory together with ignore_blank_lines)
-        if factory:
-            # under factory=True append_to_family is always refused (through ConfigList.insert, known finding F10e)
-            # AFTER it may have put the new line into the target's children list: not modelled, not generated
-            ops = [o for o in ops if o[0] not in ("atf", "atfl")] or [["app", "x"]]
-        yield E.mk_case(syntax, ign, auto, lines, ops, "forms-rand", factory=factory)
-    yield from aux_cases(rng, tier)
-    if tier != "search":
         for lines in seeds():
             for op in single_ops():
                 for syntax in ("ios", "nxos"):
@@ -366,6 +331,42 @@ def cases(rng, tier):
             lines = plain_config(rng, ign and rng.random() < 0.5)
         ops = [directed_ops(rng, lines, E.width_of(syntax), ign) for _ in range(rng.choice([1, 1, 2, 3]))]
         yield E.mk_case(syntax, ign, True, lines, ops, "directed")
+    # the input-form streams come last: the cases above are, seed by seed, the ones generated before they existed
+    if tier != "search":
+        fo = form_ops()
+        for lines in seeds():
+            for op in fo:
+                yield E.mk_case("ios", False, True, lines, [op], "forms")
+            for op in fo[::3]:
+                yield E.mk_case("ios", True, True, lines, [op], "forms-ign")
+            for op in fo[1::4]:
+                yield E.mk_case("nxos", False, False, lines, [op], "forms-nxos")
+        for lines in banner_seeds():
+            for op in fo[::2]:
+                if op[0] in ("atfl", "rem", "del2"):
+                    continue
+                yield E.mk_case("ios", False, True, lines, [op], "forms-banner")
+    nf = {"quick": 700, "thorough": 30000, "search": 1200}[tier]
+    for j in range(nf):
+        syntax = rng.choice(["ios", "ios", "nxos", "asa", "iosxr"])
+        auto = rng.random() < 0.7
+        ign = rng.random() < 0.3
+        r = rng.random()
+        if r < 0.35:
+            lines = rng.choice(seeds())
+        elif r < 0.65:
+            lines = dup_config(rng)
+        else:
+            lines = plain_config(rng, ign and rng.random() < 0.5)
+        # every third history runs with factory=True (the lines are then built by config_line_factory)
+        ops = rand_form_ops(rng, rng.choice([1, 2, 3, 4]), auto)
+        factory = j % 3 == 0 and not ign      # (CiscoConfParse refuses factory together with ignore_blank_lines)
+        if factory:
+            # under factory=True append_to_family is always refused (through ConfigList.insert, known finding F10e)
+            # AFTER it may have put the new line into the target's children list: not modelled, not generated
+            ops = [o for o in ops if o[0] not in ("atf", "atfl")] or [["app", "x"]]
+        yield E.mk_case(syntax, ign, auto, lines, ops, "forms-rand", factory=factory)
+    yield from aux_cases(rng, tier)
 
 
 def neighbours(case, rng):
@@ -426,7 +427,7 @@ def oracle_aux(case, ans):
         si = len(case["self"]) - len(case["self"].lstrip())
         if it % width != 0:
             return [] if ans == "err:NotImplementedError" else [f"indent {it} is no multiple of {width}: {ans}, expected NotImplementedError"]
-        if ans.startswith("err:"):
+        if ans.startswith("err:") or not re.fullmatch(r"-?\d+", ans):
             return [f"unexpected {ans}"]
         d = it - si
         if d % width == 0:
